@@ -198,9 +198,35 @@ def strip_site(t):
     return strip_sites(t)
 
 
-def check_open_alloc(rep, facts, a, inplace_key, rule='R14.2'):
+def check_open_accepts(rep, facts, a, rule='R14.2'):
+    """the allocating open rejects up front only inputs for which no (ciphertext, tag) split exists (len < Nt):
+    everything else is handed to the in-place open (in particular len == Nt, the sealing of the empty plaintext)"""
+    from .common import cmp_guard
+    fn = a.body.key
+    sp = a.calls(lambda c: c['name'] == 'split_at')
+    if len(sp) != 1:
+        return
+    sbi = sp[0][0]
+    idx = a.arg_val(sbi, 1)
+    p = a.term_point(sbi)
+    if idx[0] == 'okval' and idx[1][0] == 'call' and idx[1][1] == 'core::option::Option::ok_or' and idx[1][2][0][0] == 'call' and \
+            idx[1][2][0][1] == 'core::num::<impl usize>::checked_sub' and idx[1][2][0][2][0] == ('len', ('param', 2)):
+        rep.ok(rule, fn, 'open-accepts-every-split', 'checked_sub: rejected exactly when len < Nt')
+        return
+    if idx[0] == 'bin' and idx[1] == 'Sub' and idx[2] == ('len', ('param', 2)):
+        g = cmp_guard(a, sbi, idx[2], idx[3])
+        rep.check(g['guards'] >= 1 and not g['lt'] and g['eq'] and g['gt'], rule, fn, 'open-accepts-every-split',
+                  'split reachable for len < Nt: %s, len == Nt: %s, len > Nt: %s' % (g['lt'], g['eq'], g['gt']),
+                  'open() hands every input with len >= Nt to the in-place open (a tag-only ciphertext is the empty message)', where(a, p))
+        return
+    rep.undecided(rule, fn, 'open-accepts-every-split', pp(idx)[:160], 'a recognised length guard', where(a, p))
+
+
+def check_open_alloc(rep, facts, a, inplace_key, rule='R14.2', strict_accept=True):
     """open = split at len-Nt, in-place open on the copy of the head with the tag copied from the tail"""
     fn = a.body.key
+    if strict_accept:
+        check_open_accepts(rep, facts, a, rule)
     calls = [(bi, t, c) for bi, t, c in a.calls(lambda c: (c.get('resolved') or {}).get('key') == inplace_key or c.get('key') == inplace_key)]
     if len(calls) != 1:
         rep.bad(rule, fn, 'delegation', '%d delegation(s)' % len(calls), 'one call of the in-place open', where(a))
@@ -245,7 +271,7 @@ def check_open_alloc(rep, facts, a, inplace_key, rule='R14.2'):
         for i in range(len(t2['args'])):
             if a.arg_val(b2, i) == ('param', 2):
                 uses.append(c2['name'] if c2 else '?')
-    rep.check(sorted(uses) == ['len', 'split_at'], 'R06.2', fn, 'input-uses', '%s' % sorted(uses),
+    rep.check(sorted(set(uses)) == ['len', 'split_at'] and uses.count('split_at') == 1, 'R06.2', fn, 'input-uses', '%s' % sorted(uses),
               'the input is only measured and split once (no ignored trailing bytes, no second slice)', where(a))
 
 
@@ -262,7 +288,7 @@ def run(ctx):
     rep.call_sites = sum(len(get_an(facts, b.key).calls()) for b in facts.body_list)
 
 
-def run_alloc_forms(rep, facts, alloc):
+def run_alloc_forms(rep, facts, alloc, strict_accept=True):
     n = 0
     for method, chk in (('encrypt_in_place_detached', check_seal_alloc), ('decrypt_in_place_detached', check_open_alloc)):
         for sa, bi, t, c in aead_sites(facts, method):
@@ -272,7 +298,10 @@ def run_alloc_forms(rep, facts, alloc):
                     continue
                 if any(((c2.get('resolved') or {}).get('key') == ikey or c2.get('key') == ikey) for _, _, c2 in a.calls() if c2):
                     n += 1
-                    chk(rep, facts, a, ikey)
+                    if chk is check_open_alloc:
+                        chk(rep, facts, a, ikey, strict_accept=strict_accept)
+                    else:
+                        chk(rep, facts, a, ikey)
     if alloc:
         rep.floor('R14.2', 'allocating wrappers (seal, open)', n, 2)
     return n
